@@ -270,6 +270,24 @@ pub fn run(ctx: &Ctx, rep: &mut Report) {
                 }
                 if sz.len() >= 2 {
                     split_group(&mut lg, rep, &mut r, &pl, 0, &sz, false, "edge-group");
+                    // replays after the capacity rejection: the rejected fragment again (same
+                    // number), a small fragment with that number, then the rest of the group
+                    let n = sz.len() as u8;
+                    let id = Some(r.below(10) as u8);
+                    let mut prev = 0;
+                    for (j, s) in sz.iter().enumerate() {
+                        let end = (prev + s).min(pl.len());
+                        let k = (j + 1) as u8;
+                        lg.line(rep, &nmea_ref::mk(n, k, id, &pl[prev..end], 0), false, "edge-replay");
+                        if r.chance(1, 2) {
+                            lg.line(rep, &nmea_ref::mk(n, k, id, &pl[prev..end], 0), r.chance(1, 4), "edge-replay-same");
+                        }
+                        if r.chance(1, 3) {
+                            lg.line(rep, &nmea_ref::mk(n, k, id, b"0000", 0), false, "edge-replay-small");
+                        }
+                        prev = end;
+                    }
+                    lg.line(rep, &nmea_ref::mk(n, n, id, b"00", 0), r.bool(), "edge-replay-final");
                     // the following group must be unaffected in every build
                     let nxt = armor_chars(&mut r, 20);
                     split_group(&mut lg, rep, &mut r, &nxt, 0, &[10, 10], false, "edge-group-next");
